@@ -34,7 +34,8 @@ ASSUMPTIONS = [
     "an in-flight, un-acknowledged message is a violation ('never refused forever')",
     "Topic: script actions happen at distinct instants, so 'active at publish time' is unambiguous; replayed history deliveries "
     "(is_replay) are not counted",
-    "EventLog/ConsumerGroup: consumers are sequential (one operation at a time per consumer) and commit what a real consumer "
+    "EventLog/ConsumerGroup: a consumer's own operations are sequential (one at a time; only a 'bounce' = leave followed 0-2 ticks "
+    "later by a join under the same name is issued by a separate admin process and may overlap the rebalance delay) and it commits what a real consumer "
     "commits: highest polled offset + 1 per partition; committed offsets are read from ConsumerGroup._committed_offsets "
     "(read-only observation; consumer_lag exposes them only for currently assigned partitions)",
     "an assignment with no members is accepted (nothing can own the partitions)",
@@ -119,7 +120,7 @@ def ex_mq(case):
     nrec = [0]
     npub = [0]
     granted, outstanding, keep = {}, {}, []     # id(redelivery event) -> message id; message id -> timers not yet fired
-    state = {"d": 0, "lost": False, "redel": False, "refused": False, "nosub": 0}
+    state = {"d": 0, "lost": False, "redel": False, "refused": False, "nosub": 0, "stuck": False, "maxtimers": 0}
 
     def in_dlq(mid):
         return any(m.id == mid for m in dlq.messages)
@@ -247,10 +248,21 @@ def ex_mq(case):
                 r.add(f"{pre}/message-lost", f"message #{pid} is neither in the queue, nor acknowledged, nor dead-lettered at {now} ns")
                 return
 
+    prev = {"pending": 0, "consumers": q.consumer_count, "tot": 0}
+
     def hook(event):
+        s = q.stats
+        tot = s.messages_delivered + s.messages_redelivered
+        if (event.target is q and event.event_type == "poll" and type(event).__name__ == "Event" and not state["stuck"]
+                and prev["pending"] > 0 and prev["consumers"] > 0 and tot == prev["tot"]):
+            # state before this event = state after the previous one: something was pending, a consumer was subscribed
+            state["stuck"] = True
+            r.add(f"{pre}/poll-did-not-deliver-pending",
+                  f"poll at {event.time.nanoseconds} ns with pending_count={prev['pending']} and {prev['consumers']} consumer(s) subscribed "
+                  f"delivered nothing (pending_count now {q.pending_count}, in_flight {q.in_flight_count})")
+        prev["pending"], prev["consumers"], prev["tot"] = q.pending_count, q.consumer_count, tot
+        state["maxtimers"] = max(state["maxtimers"], sum(outstanding.values()))
         if event.target is q:
-            s = q.stats
-            tot = s.messages_delivered + s.messages_redelivered
             if tot > state["d"]:
                 inits.extend([event.time.nanoseconds] * (tot - state["d"]))
                 state["d"] = tot
@@ -357,8 +369,8 @@ def ex_mq(case):
     redeliv = sum(1 for x in receipts if (x[3] or 0) > 1)
     r.nontrivial = redeliv > 0 and dead > 0
     r.labels += [f"latency={int(L > 0)}", f"received={int(bool(receipts))}", f"redelivered={int(redeliv > 0)}",
-                 f"dead-lettered={int(dead > 0)}", f"acked={int(bool(acked_at))}", f"timer-without-subscriber={int(state['nosub'] > 0)}", f"status={status}"]
-    r.target = float(min(redeliv, 5) + min(dead, 3) + 3 * min(state["nosub"], 3))
+                 f"dead-lettered={int(dead > 0)}", f"acked={int(bool(acked_at))}", f"timer-without-subscriber={int(state['nosub'] > 0)}", f"simultaneous-redelivery-timers>=2={int(state['maxtimers'] >= 2)}", f"status={status}"]
+    r.target = float(min(redeliv, 5) + min(dead, 3) + 3 * min(state["nosub"], 3) + 3 * min(state["maxtimers"], 4))
     r.observed = {"receipts": receipts[:20], "stats": [s.messages_published, s.messages_delivered, s.messages_redelivered,
                                                          s.messages_acknowledged, s.messages_dead_lettered]}
     return r
@@ -597,10 +609,10 @@ def ex_log(case):
 def group_strategy(tier):
     big = tier == "thorough"
     act = st.tuples(st.sampled_from([0, 1, 1, 2, 3, 5, 8]),
-                    st.sampled_from(["join", "leave", "rejoin", "rejoin", "poll", "poll", "poll", "poll", "poll", "app", "app", "app",
-                                     "app", "app"]),
+                    st.sampled_from(["join", "leave", "rejoin", "rejoin", "bounce", "bounce", "poll", "poll", "poll", "poll", "poll",
+                                     "app", "app", "app", "app", "app"]),
                     st.integers(0, 3), st.integers(0, len(KEYS) - 1), st.sampled_from([1, 1, 2, 3, 100, 100])).map(list)
-    return st.fixed_dictionaries({"np": st.integers(1, 5), "strategy": st.sampled_from([2, 1, 0, 1, 2, 0]), "rdelay": st.sampled_from([0, 1, 2, 4]),
+    return st.fixed_dictionaries({"np": st.integers(1, 5), "strategy": st.sampled_from([2, 1, 0, 1, 2, 0]), "rdelay": st.sampled_from([0, 1, 2, 4, 4]),
                                   "plat": st.sampled_from([0, 1, 3]), "al": st.sampled_from([0, 1, 3]),
                                   "ncons": st.integers(1, 4), "init": st.sampled_from([1, 1, 3, 3, 7, 15, 2, 5, 6, 0]),
                                   "script": st.lists(act, min_size=12, max_size=60 if big else 32)})
@@ -681,11 +693,32 @@ def ex_group(case):
             return None
 
     prod = Producer("producer")
+
+    class Admin(Entity):
+        """Membership changes issued outside the consumer's own sequential loop (a consumer process that is restarted:
+        the old instance's leave and the new instance's join, same name, may overlap the group's rebalance delay)."""
+
+        def handle_event(self, event):
+            name = event.context["name"]
+            if event.context["kind"] == "leave":
+                yield from group.leave(name)
+            else:
+                yield from group.join(name, cons[event.context["c"]])
+            return None
+
+    admin = Admin("admin")
+    bounces = [0]
     horizon = times[-1] + 300 * TICK
-    sim = Simulation(entities=[log, group, prod] + cons, end_time=Instant(horizon))
+    sim = Simulation(entities=[log, group, prod, admin] + cons, end_time=Instant(horizon))
     for i, t in enumerate(times):
         _, kind, a, b, c = script[i][:5]
-        if kind == "app":
+        if kind == "bounce":
+            ci = _i(a) % ncons
+            gap = (_i(b) % 3) * TICK
+            bounces[0] += int(gap < _dur_ns(rdelay))
+            sim.schedule(Event(time=Instant(t), event_type="act", target=admin, context={"kind": "leave", "name": f"c{ci}", "c": ci}))
+            sim.schedule(Event(time=Instant(t + gap), event_type="act", target=admin, context={"kind": "join", "name": f"c{ci}", "c": ci}))
+        elif kind == "app":
             sim.schedule(Event(time=Instant(t), event_type="act", target=prod, context={"key": KEYS[_i(b) % len(KEYS)], "i": i}))
         else:
             sim.schedule(Event(time=Instant(t), event_type="act", target=cons[_i(a) % ncons],
@@ -754,7 +787,8 @@ def ex_group(case):
     r.nontrivial = changes >= 2 and any(recs for (_, _, _, _, recs) in polls) and between
     r.labels += [sname, f"rebalances>=2={int(changes >= 2)}", f"polled={int(any(p[4] for p in polls))}", f"queued-ops={int(skipped[0] > 0)}",
                  f"status={status}"]
-    r.target = float(min(changes, 6))
+    r.labels.append(f"bounce-inside-rebalance-delay={int(bounces[0] > 0)}")
+    r.target = float(min(changes, 6) + 3 * min(bounces[0], 3))
     r.observed = {"assignments": [(t, g, a) for (t, g, a, m) in assign_hist[:8]]}
     return r
 
@@ -777,6 +811,7 @@ OBLIGATIONS = [
                "retention policy) records were expired"),
     Obligation("group", group_strategy, ex_group, {"quick": 1500, "thorough": 60000},
                "ConsumerGroup x {Range, RoundRobin, Sticky} over an EventLog with 1-5 partitions: 1-4 sequential consumer entities "
-               "join / leave / poll-then-commit(highest offset+1) while a producer appends; non-trivial = >= 2 rebalances and a "
+               "join / leave / rejoin / poll-then-commit(highest offset+1), bounces (leave and re-join of one name 0-2 ticks apart, inside or "
+               "outside the rebalance delay) while a producer appends; ownership is judged after every generation change; non-trivial = >= 2 rebalances and a "
                "non-empty poll after a membership change"),
 ]
